@@ -229,15 +229,30 @@ pub fn check_text(text: &str) -> Option<String> {
     }
     // code actions offered at a line operate on the block covering it: "Extract section" is only offered on a
     // heading line, the list conversions only on a line of a list
+    // the lines of headings (ATX and setext) and of lists, from the oracle's own parser pass
+    let mut heading_lines: std::collections::HashSet<u32> = Default::default();
+    let mut list_lines: std::collections::HashSet<u32> = Default::default();
+    for (ev, r) in Parser::new_ext(text, md::options()).into_offset_iter() {
+        let span = |set: &mut std::collections::HashSet<u32>| {
+            let (a, b) = (lsp_pos(text, r.start).0, lsp_pos(text, r.end.saturating_sub(1).max(r.start)).0);
+            for l in a..=b {
+                set.insert(l);
+            }
+        };
+        match ev {
+            Event::Start(Tag::Heading { .. }) => span(&mut heading_lines),
+            Event::Start(Tag::List(_)) => span(&mut list_lines),
+            _ => {}
+        }
+    }
     for line in 0..nlines {
         let line_text = text.split('\n').nth(line as usize).unwrap_or("").trim_end_matches('\r');
         if let Ok(actions) = act::actions_at(&server, "a", line) {
             for (kind, _, _) in &actions {
-                let t = line_text.trim_start().trim_start_matches('>').trim_start();
-                if kind == "refactor.extract.section" && !t.starts_with('#') {
+                if kind == "refactor.extract.section" && !heading_lines.contains(&line) {
                     return Some(format!("\"Extract section\" is offered at line {} which is not a heading line: {:?}", line, line_text));
                 }
-                if (kind == "refactor.rewrite.list.type" || kind == "refactor.rewrite.list.section") && !(t.starts_with("- ") || t == "-" || t.starts_with("1.")) {
+                if (kind == "refactor.rewrite.list.type" || kind == "refactor.rewrite.list.section") && !list_lines.contains(&line) {
                     return Some(format!("a list conversion is offered at line {} which is not a line of a list: {:?}", line, line_text));
                 }
             }
